@@ -21,7 +21,7 @@ func init() {
 // equal values come with different mantissa lengths, precisions, modes, accuracies.
 func mkVia(r *hx.RNG, v oracle.Val) (*decimal.Decimal, string) {
 	if v.Form != oracle.Finite {
-		return hx.Mk(v, uint(r.Range(0, 60)), r.Mode()), "special"
+		return hx.MkR(r, v, uint(r.Range(0, 60)), r.Mode()), "special"
 	}
 	d := digitsOf(v)
 	switch r.Intn(5) {
